@@ -775,10 +775,10 @@ Proof. constructor; [|constructor]. unfold num_ok. repeat split; vm_compute; con
 Lemma cnt_val_n cnt : cnt_val cnt = cnt_n (opt_val cnt).
 Proof. destruct cnt as [[c cv]|]; reflexivity. Qed.
 
-Lemma index_dword p inst dims av idv pl1 :
-  index_place p (PlData inst 0 (BAtom C_DWORD) dims av) idv = Some pl1 -> (length idv <= length dims)%nat ->
-  (idv = [] /\ pl1 = PlBools inst 0 (32 * dims_count dims) 0)
-  \/ (exists kk i, dims = [kk] /\ idv = [i] /\ 0 <= i /\ pl1 = PlBools inst 0 (32 * kk) i).
+Lemma index_dword p inst off dims av idv pl1 :
+  index_place p (PlData inst off (BAtom C_DWORD) dims av) idv = Some pl1 -> (length idv <= length dims)%nat ->
+  (idv = [] /\ pl1 = PlBools inst off (32 * dims_count dims) 0)
+  \/ (exists kk i, dims = [kk] /\ idv = [i] /\ 0 <= i /\ pl1 = PlBools inst off (32 * kk) i).
 Proof.
   unfold index_place. change (is_dword (BAtom C_DWORD)) with true. cbv iota. intros H Hl.
   destruct dims as [|kk [|k2 dr]]; destruct idv as [|i [|i2 ir]]; cbn [length] in Hl; try lia; try discriminate.
@@ -824,7 +824,7 @@ Proof.
   assert (Hcases : (idv = [] /\ ids = [] /\ pl1 = PlBools (g_inst g) 0 (32 * tag_elems g) 0)
                    \/ (exists kk i t, g_dims g = [kk] /\ idv = [i] /\ ids = [t] /\ num_ok t i /\ 0 <= i
                                       /\ pl1 = PlBools (g_inst g) 0 (32 * kk) i)).
-  { destruct (index_dword p _ _ _ _ _ Hip Hshape) as [[-> ->]|(kk & i & Ed & -> & Hi0 & ->)].
+  { destruct (index_dword p _ _ _ _ _ _ Hip Hshape) as [[-> ->]|(kk & i & Ed & -> & Hi0 & ->)].
     - left. inversion Hids. repeat split; reflexivity.
     - right. destruct (forall2_single _ _ _ Hids) as (t & -> & Hti).
       exists kk, i, t. split; [exact Ed|]. split; [reflexivity|]. split; [reflexivity|]. split; [exact Hti|]. split; [exact Hi0|reflexivity]. }
